@@ -26,4 +26,15 @@ theorem hhMerge_src (a b : HCell (B × Nat)) :
   simp only [Prod.mk.injEq, decide_eq_true_eq]
   by_cases h1 : ab = bb <;> by_cases h2 : al = bl <;> simp_all <;> (repeat' split) <;> simp_all
 
+/-- the row loop of `_max_count` as translated from the source is the step of `HH.maxRows` -/
+theorem hhMaxStep_src (g : Geom (B × Nat)) (T : HTab (B × Nat)) (k : B × Nat) (d : Nat) :
+    HH.maxRows g T k (d + 1) =
+      Src.hhMaxStep (decide ((T d (g.col d k)).key.2 = k.2 ∧ k.1 = (T d (g.col d k)).key.1)) (T d (g.col d k)).cnt (HH.maxRows g T k d) := by
+  obtain ⟨kb, kl⟩ := k
+  unfold Src.hhMaxStep
+  simp only [HH.maxRows, decide_eq_true_eq]
+  rcases hc : (T d (g.col d (kb, kl))).key with ⟨cb, cl⟩
+  by_cases h1 : cl = kl <;> by_cases h2 : kb = cb <;> simp_all [Prod.ext_iff] <;> (repeat' split) <;> (try simp_all) <;> (try omega) <;>
+    (try (intro h; exact absurd h.symm h2))
+
 end Sketchnu.SrcHH
